@@ -11,6 +11,7 @@ import (
 	"path/filepath"
 	"strconv"
 	"strings"
+	"sync"
 	"unicode/utf16"
 	"unicode/utf8"
 
@@ -25,7 +26,10 @@ type GSM7Table struct {
 	FromRun map[rune][]byte // rune -> septets (1 or 2)
 }
 
-var gsm7 *GSM7Table
+var (
+	gsm7     *GSM7Table
+	gsm7Once sync.Once
+)
 
 func parseU(s string) rune {
 	v, err := strconv.ParseUint(strings.TrimPrefix(s, "U+"), 16, 32)
@@ -45,9 +49,11 @@ func parseX(s string) byte {
 
 // GSM7 loads the reference alphabet (once).
 func GSM7() *GSM7Table {
-	if gsm7 != nil {
-		return gsm7
-	}
+	gsm7Once.Do(func() { gsm7 = loadGSM7() })
+	return gsm7
+}
+
+func loadGSM7() *GSM7Table {
 	b, err := os.ReadFile(filepath.Join(pdus.VerifDir(), "spec", "gsm7_table.json"))
 	if err != nil {
 		panic("verifmon harness: " + err.Error())
@@ -74,7 +80,6 @@ func GSM7() *GSM7Table {
 	if len(raw.Basic) != 127 || len(raw.Extension) != 10 || len(t.FromRun) != 137 {
 		panic(fmt.Sprintf("verifmon harness: gsm7 table has %d+%d entries, %d distinct characters", len(raw.Basic), len(raw.Extension), len(t.FromRun)))
 	}
-	gsm7 = t
 	return t
 }
 
